@@ -16,7 +16,9 @@ the learning data are `0..k-1` (`class_index_is_label_partial`, `class_index_not
 
 Defects of the unchanged code that are mirrored in the model and proved here as counterexamples:
 `evaluate_after_test_fails` (+ `_counterexample`), `class_index_not_label_counterexample`,
-`prescaled_origin_counterexample`, `removal_1d_counterexample`.
+`prescaled_origin_counterexample`.  (The 1-D `IndexError` of `DataSet.same_scaling` was repaired in the code — fix
+94a0133 —; the former `removal_1d_counterexample` is replaced by the positive `removal_1d_example`: the general
+theorems below hold in every dimension, including 1.)
 -/
 namespace SparseSpace.C19
 open SparseSpace.Classify
@@ -391,8 +393,6 @@ theorem user_range_scaling (raw : Data) (los his : List Rat) (sc : Scaling) (fit
   split at h
   · exact absurd h (by simp)
   next hok =>
-  split at h
-  · exact absurd h (by simp)
   simp only [Except.ok.injEq, Prod.mk.injEq] at h
   obtain ⟨h1, h2, h3, h4⟩ := h
   subst h1
@@ -461,12 +461,12 @@ theorem prescaled_origin_counterexample :
     (call exDens exSt ⟨d, some (0, 1)⟩).map (·.2) = .error .scalingMismatch := by
   decide +kernel
 
-/-- **DEFECT (mirrored)**: one-dimensional data — removing two or more samples raises (IndexError in
-`DataSet.same_scaling`) instead of removing and reporting them; one removed sample is fine. -/
-theorem removal_1d_counterexample :
+/-- one-dimensional data (after the repair of `DataSet.same_scaling`): several out-of-range samples are removed and
+reported, the others classified — the instance of `removed_iff_out_of_range` that used to raise `IndexError` -/
+theorem removal_1d_example :
     let st : State := { exSt with sc := [⟨0, 2, 99/200⟩] }
-    (call exDens st ⟨[⟨[1], 0⟩, ⟨[5], 0⟩, ⟨[7], 1⟩], none⟩).map (·.2) = .error .indexError1D ∧
-    (call exDens st ⟨[⟨[1], 0⟩, ⟨[5], 0⟩], none⟩).map (·.2.removed) = .ok [⟨[62/25], 0⟩] := by
+    (call exDens st ⟨[⟨[1], 0⟩, ⟨[5], 0⟩, ⟨[7], 1⟩], none⟩).map (·.2) =
+      .ok ⟨[([1/2], 0)], [⟨[62/25], 0⟩, ⟨[347/100], 1⟩]⟩ := by
   decide +kernel
 
 end SparseSpace.C19
